@@ -54,6 +54,11 @@ else:
 FLAG_REF = 0x80
 
 
+# TYPE_NULL ("0") is not None: inside a dict it ends the key/value
+# list, while None ("N") is an ordinary key or value.
+C_NULL = object()
+
+
 # The keys in the following dictionary are unmarshal codes, like "s",
 # "c", "<", etc. The values of the dictionary are names of routines
 # to call that do the data unmarshaling.
@@ -241,7 +246,7 @@ class _VersionIndependentUnmarshaller:
     # In C this NULL. Not sure what it should
     # translate here. Note NULL != None which is below
     def t_C_NULL(self, save_ref, bytes_for_s=False):
-        return None
+        return C_NULL
 
     def t_None(self, save_ref, bytes_for_s=False):
         return None
@@ -428,10 +433,10 @@ class _VersionIndependentUnmarshaller:
         # dictionary
         while True:
             key = self.r_object(bytes_for_s=bytes_for_s)
-            if key is None:
+            if key is C_NULL:
                 break
             val = self.r_object(bytes_for_s=bytes_for_s)
-            if val is None:
+            if val is C_NULL:
                 break
             ret[key] = val
             pass
